@@ -124,6 +124,10 @@ func (v *VerifStates) VerifCheck(from, next StateType) string {
 	case errors.Is(err, ErrIgnoreSwitchingState):
 		return "ignore"
 	case errors.As(err, &sctx):
+		if sctx.next() == next && sctx.from() == from { // the request itself comes back when nothing changes
+			return "ok"
+		}
+
 		return "redirect:" + sctx.next().String()
 	default:
 		return "error"
